@@ -59,6 +59,8 @@ def run(ctx):
     res.assumptions += ["t2 >= the detector minimum (>= 3), t1 >= 0", "dependency contracts of uts.peak_detection (checked on the installed source) and uts.gradient"]
     res.not_decided += ["that the result equals the stated union formula on concrete curves (it follows from M1-M5 by induction on the stack discipline; the facts are checked, the induction is a paper argument)",
                         "SMAPE numerics"]
+    from .common import hidden_state as _hidden_state
+    _hidden_state(rc, "M10", ['multi_knee.multi_knee', 'curvature.multi_knee', 'dfdt.multi_knee', 'menger.multi_knee', 'lmethod.multi_knee', 'kneedle.multi_knee', 'curvature.knee', 'dfdt.knee', 'menger.knee', 'lmethod.knee', 'kneedle.knee'], "recursive multi-knee detection")
     res.require_instances("C02 obligations", len(res.obligations), 18)
 
 
